@@ -13,8 +13,13 @@ import numpy as np
 from mc.ref import c02_gstat as G
 
 
-def _tfd_family(fam):
+def _tfd_family(fam, numpy_substrate=False):
     import tensorflow_probability.substrates.jax.distributions as tfd
+
+    if numpy_substrate:
+        import tensorflow_probability.substrates.numpy.distributions as tfd_np
+
+        return getattr(tfd_np, fam)
 
     if fam == "MVND":
         from liesel.distributions import MultivariateNormalDegenerate
@@ -63,7 +68,7 @@ class BuiltStat:
 
     def _dist(self, spec, name=""):
         lsl = self.lsl
-        cls = _tfd_family(spec["fam"])
+        cls = _tfd_family(spec["fam"], spec.get("np", False))
         if spec.get("pos"):
             return lsl.Dist(cls, *[self._ref(r) for r in spec["args"].values()], _name=name)
         return lsl.Dist(cls, **{k: self._ref(r) for k, r in spec["args"].items()}, _name=name)
